@@ -7,6 +7,13 @@ use crate::prog::*;
 use crate::Explored;
 use serde_json::json;
 
+fn long_leaves(var: u64) -> Vec<Leaf> {
+    vec![
+        Leaf { dims: vec![19], vals: (0..19).map(|i| ((i * 7 + 2) % 5) as f64 - 1.0 + var as f64).collect() },
+        Leaf { dims: vec![19], vals: (0..19).map(|i| ((i * 3 + 1) % 4) as f64 - 2.0).collect() },
+    ]
+}
+
 fn leaves(var: u64) -> Vec<Leaf> {
     vec![
         Leaf { dims: vec![2], vals: vec![2.0 + var as f64, 3.0] },
@@ -122,6 +129,27 @@ pub fn explore(opts: &Opts) -> Explored {
     let threads = opts.threads.max(1);
     let mut total = Local::new(opts.only.clone());
     let mut stats = Vec::new();
+    // the same kind of space on arrays longer than any block or lane width (pending adjoints of
+    // nodes with several consumers are summed element-wise)
+    {
+        let (progs, _) = collect_programs(long_leaves(var), vec![OpK::UScale(2.0), OpK::UMul, OpK::UAdd], if opts.tier == Tier::Quick { 3 } else { 4 });
+        let local = par(opts, progs.len(), |i, l| {
+            let p = &progs[i];
+            l.states += 1;
+            for m in [0b11u32, 0b01] {
+                let mask = vec![m & 1 != 0, m & 2 != 0];
+                for root in p.nl()..p.nv() {
+                    let case = || format!("{} mask={:02b} bw(v{})", p.describe(), m, root);
+                    if !l.want(&case) {
+                        continue;
+                    }
+                    check_one(p, &mask, root, l, "long-arrays", &case);
+                }
+            }
+        });
+        stats.push(json!({"alphabet": "uscale+umul+uadd on [19]-element leaves", "programs": progs.len()}));
+        total.merge(local);
+    }
     for (name, ops, n) in &spaces {
         let progs = std::sync::Mutex::new(0u64);
         let local = par(opts, threads, |ti, l| {
